@@ -34,6 +34,15 @@ def mlmc_case(draw, tier, with_cv=True, modes=("adaptive", "adaptive", "adaptive
             "strike": draw(_f(-1.0, 1.0)), "payoff": draw(st.sampled_from(["forward", "call", "put"])),
             "controls": draw(st.lists(st.tuples(_f(-1.0, 1.0), _f(-1.0, 1.0)), max_size=2)) if with_cv else []}
     case["rmse"] = float(f"{case['rmse_rel'] * case['notional'] * case['df'] * law['s_base']:.6g}")
+    if low_levels:
+        flavour = draw(st.sampled_from(["plain"] * 5 + ["quiet", "identical-top-level"]))
+        if flavour == "quiet":
+            # a nearly deterministic payoff: dispersion 1e-5 of the level of the samples (rmse scales with s_base)
+            law["base"], law["s_base"], law["s0"], law["m0"] = 1.0, 1e-5, draw(_f(1e-7, 1e-5)), draw(_f(1e-7, 1e-5))
+            case["rmse"] = float(f"{case['rmse_rel'] * case['notional'] * case['df'] * law['s_base']:.6g}")
+        elif flavour == "identical-top-level" and criteria == "giles":
+            law["identical_levels"] = [l0]
+        case["flavour"] = flavour
     if low_levels and criteria == "giles" and draw(st.integers(0, 7)) == 0:
         case["rates"] = "zero-alpha"
         case["maximum_level"] = min(case["maximum_level"], l0 + 2)
